@@ -56,6 +56,7 @@ struct Thr {
   uint64_t idle_pts; // scheduling points since this thread changed state
   long prio;        // PCT priority
   int plain_ctr;
+  int quiet;       // >0: harness bookkeeping, invisible to scheduler and HB
   VC clk, acqF, relF;
   bool has_relF;
   void* (*fn)(void*);
@@ -184,11 +185,24 @@ void budget_check() {
 }
 
 // the scheduling point
+uint64_t live_fair_at = 0, live_fail_at = 0;
+
 void sp(int kind) {
   Thr* t = me;
-  if (!t || !enabled)
+  if (!t || !enabled || t->quiet)
     return;
   ++steps;
+  if (live_fail_at) {
+    if (steps > live_fail_at) {
+      char buf[512];
+      describe(buf, sizeof buf);
+      fail("liveness", buf);
+    }
+    if (!fair_tail && steps > live_fair_at) {
+      fair_tail = true;
+      rr_left   = 0;
+    }
+  }
   ++t->idle_pts;
   if ((steps & 1023) == 0)
     budget_check();
@@ -407,7 +421,7 @@ void hb_access(Thr* t, const void* addr, size_t size, bool write) {
 
 inline void plain(const void* a, size_t size, bool write) {
   Thr* t = me;
-  if (!t || !enabled)
+  if (!t || !enabled || t->quiet)
     return;
   if ((size_t)((const char*)a - arena) < ARENA_BYTES && arena) {
     if (hb_on)
@@ -574,6 +588,17 @@ uint64_t gsched_now(void) { return steps; }
 uint64_t gsched_switches(void) { return switches; }
 uint64_t gsched_preemptions(void) { return preemptions; }
 uint64_t gsched_state_changes(void) { return state_changes; }
+void gsched_quiet(int delta) {
+  if (me)
+    me->quiet += delta;
+}
+void gsched_liveness_mark(uint64_t fair_after, uint64_t fail_after) {
+  if (live_fail_at)
+    return;
+  live_fair_at = steps + fair_after;
+  live_fail_at = steps + fair_after + fail_after;
+}
+void gsched_liveness_clear(void) { live_fair_at = live_fail_at = 0; }
 void gsched_fair_from_now(void) {
   fair_tail = true;
   rr_left   = 0;
@@ -922,13 +947,13 @@ void __tsan_atomic_signal_fence(int) {}
   T __tsan_atomic##N##_load(const volatile T* a, int mo) {                     \
     sp(K_ATOMIC);                                                              \
     T v = __atomic_load_n(a, __ATOMIC_SEQ_CST);                                \
-    if (me && enabled)                                                         \
+    if (me && enabled && !me->quiet)                                          \
       hb_load(me, a, mo);                                                      \
     return v;                                                                  \
   }                                                                            \
   void __tsan_atomic##N##_store(volatile T* a, T v, int mo) {                  \
     sp(K_ATOMIC);                                                              \
-    if (me && enabled) {                                                       \
+    if (me && enabled && !me->quiet) {                                        \
       hb_store(me, a, mo);                                                     \
       changed(me);                                                             \
     }                                                                          \
@@ -936,7 +961,7 @@ void __tsan_atomic_signal_fence(int) {}
   }                                                                            \
   T __tsan_atomic##N##_exchange(volatile T* a, T v, int mo) {                  \
     sp(K_ATOMIC);                                                              \
-    if (me && enabled) {                                                       \
+    if (me && enabled && !me->quiet) {                                        \
       hb_rmw(me, a, mo);                                                       \
       changed(me);                                                             \
     }                                                                          \
@@ -947,7 +972,7 @@ void __tsan_atomic_signal_fence(int) {}
     sp(K_ATOMIC);                                                              \
     bool ok = __atomic_compare_exchange_n(a, c, v, false, __ATOMIC_SEQ_CST,    \
                                           __ATOMIC_SEQ_CST);                   \
-    if (me && enabled) {                                                       \
+    if (me && enabled && !me->quiet) {                                        \
       if (ok) {                                                                \
         hb_rmw(me, a, mo);                                                     \
         changed(me);                                                           \
@@ -968,7 +993,7 @@ void __tsan_atomic_signal_fence(int) {}
 #define RMW(N, T, name, builtin)                                               \
   T __tsan_atomic##N##_##name(volatile T* a, T v, int mo) {                    \
     sp(K_ATOMIC);                                                              \
-    if (me && enabled) {                                                       \
+    if (me && enabled && !me->quiet) {                                        \
       hb_rmw(me, a, mo);                                                       \
       changed(me);                                                             \
     }                                                                          \
